@@ -11,8 +11,8 @@ def run(run, args):
     decide(run, recs, res, errors, THEOREMS_C13, "C13")
 
 
-THEOREMS_C13 = ["C13_shift", "C13_scale_by", "C13_truncate_after", "C13_ignore_below", "C13_normalize_sum",
-                "C13_normalize_ratio", "C13_nonvacuous"]
+THEOREMS_C13 = ["C13_shift", "C13_scale_by", "C13_normalize_shape", "C13_truncate_after", "C13_ignore_below", "C13_normalize_sum",
+                "C13_normalize_ratio", "C13_truncate_sum", "C13_ignore_sum", "C13_nonvacuous"]
 
 
 def decide(run, recs, res, errors, theorems, module):
